@@ -1,6 +1,6 @@
 #!/bin/sh
-# usage: verify_r2.sh <PROP> <seeded-name>  -- confirm the change left by a sub-agent in /tmp/mut/r2-<PROP> independently and store it
-P=$1; NAME=$2; W=/tmp/mut/r2-$P; O=$W/OUT; L=/tmp/mut/r2-$P.verify
+# usage: verify_r2.sh <PROP> <seeded-name> [round-prefix, default r2]  -- confirm the change left by a sub-agent in /tmp/mut/r2-<PROP> independently and store it
+P=$1; NAME=$2; R=${3:-r2}; W=/tmp/mut/$R-$P; O=$W/OUT; L=/tmp/mut/$R-$P.verify
 set -e
 cd $W
 git diff -- src > $L.diff
@@ -38,7 +38,7 @@ cp $O/demo.sh /verif/seeded/$NAME/demo.sh
 cp $O/NOTES.md /verif/seeded/$NAME/NOTES.md 2>/dev/null || true
 PASS=$(grep -E "^test result: ok" $L.test.log | wc -l); FAILN=$(grep -E "^test result: FAILED" $L.test.log | wc -l)
 cat > /verif/seeded/$NAME/meta.json <<EOM
-{"property": "$P", "round": 2, "base_commit": "$(git -C /repo rev-parse --short HEAD)", "demo_rc_with_change": $RM, "demo_rc_without_change": $RB, "test_suites_ok": $PASS, "test_suites_failed": $FAILN,
+{"property": "$P", "round": "$R", "base_commit": "$(git -C /repo rev-parse --short HEAD)", "demo_rc_with_change": $RM, "demo_rc_without_change": $RB, "test_suites_ok": $PASS, "test_suites_failed": $FAILN,
  "ran": "cargo build (plain and --features verif), cargo test --workspace --no-fail-fast --offline, demo.sh with the changed and with the unchanged binary",
  "confirmed": $( [ $RM -ne 0 ] && [ $RB -eq 0 ] && [ $FAILN -eq 0 ] && [ $PASS -ge 4 ] && echo true || echo false )}
 EOM
